@@ -42,6 +42,36 @@ SPEC: dict[str, list[Unit]] = {
             Fn("PairingToZ1d.pair", self_attrs={"left": I, "right": I, "_omitting_zero": I}),
         ]),
     ],
+    "C10": [
+        Unit("rpylib/model/levymodel/levymodel.py", [
+            Fn("LevyTriplet.canonical_drift", **(_T := dict(
+                ret=R, err="(0 : Rat)", self_attrs={"a": R}, enum_attrs={"representation": "LevyRepresentation"},
+                const_calls={"self.nu.jump_of_finite_variation()": ("fv", B),
+                             "self.nu.integrate_against_x(-1,1)": ("m1_unit", R),
+                             "self.nu.integrate_against_x(-np.inf,-1)": ("m1_left", R),
+                             "self.nu.integrate_against_x(1,np.inf)": ("m1_right", R)}))),
+            Fn("LevyTriplet.zero_drift", **_T), Fn("LevyTriplet.center_drift", **_T), Fn("LevyTriplet.tilde_drift", **_T),
+        ]),
+    ],
+    "C18": [
+        Unit("rpylib/numerical/closedform/cfblackscholes.py", [
+            Fn("CFBlackScholes.forward", **(_BS := dict(
+                params={"strike": R, "strike1": R, "strike2": R, "strike3": R, "maturity": R, "flag": I}, ret=R,
+                self_attrs={"bs_model.r": R, "bs_model.d": R, "bs_model.spot": R, "bs_model.parameters.sigma": R},
+                consts={"CFBlackScholes.eps": ("((1 : Rat) / 100000000)", R)},
+                fn_params={"np.exp": "exp", "np.log": "log", "np.sqrt": "sqrt", "norm.cdf": "cdf"}))),
+            Fn("CFBlackScholes._call_put", **_BS), Fn("CFBlackScholes.call", **_BS), Fn("CFBlackScholes.put", **_BS),
+            Fn("CFBlackScholes.butterfly", **_BS),
+        ]),
+    ],
+    "C19": [
+        Unit("rpylib/numerical/closedform/cflevymodel.py", [
+            Fn("CFLevyModel.survival_probability", **(_CF := dict(
+                params={"level_a": R, "t": R, "recovery_rate": R}, ret=R,
+                opaque_fns={"self._theta": ("theta", [R], R)}, fn_params={"np.exp": "exp"}))),
+            Fn("CFLevyModel.cds_spread", **_CF),
+        ]),
+    ],
     "C17": [
         Unit("rpylib/product/payoff.py", [
             Fn("FixedCoupon.evaluate", self_attrs={"coupon": R}),
@@ -275,3 +305,68 @@ def _search_C14(ctx, lits):
     for n in sorted({v for l in ints for v in (l, -l, l + 1, -l - 1)} | set(range(-50, 50))):
         if projection_to_z(mapping_to_z(n)) != n:
             ctx.fail("oracle", "c14.src.search.fold", {"n": n}, {"mapping_to_z": int(mapping_to_z(n))})
+
+
+def _search_C10(ctx, lits):
+    """representation walks on real triplets (every family, every ordered triple of representations): reversible, path-independent"""
+    import itertools
+    from rpylib.model.levymodel.levymodel import LevyRepresentation as LR
+    from . import zoo
+    reps = [LR.ZERO, LR.CENTER, LR.ONEONE, LR.TILDE]
+    found = 0
+    cases = [(f, {}) for f in zoo.FAMILIES] + [("cgmy", zoo.draw_params(__import__("random").Random(7), "cgmy", y)) for y in zoo.CGMY_Y_BRANCHES]
+    for fam, prm in cases:
+        for r1, r2, r3 in itertools.product(reps, repeat=3):
+            try:
+                m = zoo.make_levy(fam, prm)
+                t = m.levy_triplet
+                a0, r0 = float(t.a), t.representation
+                t.set_representation(r1); t.set_representation(r2)
+                a12 = float(t.a)
+                t.set_representation(r3)
+                a123 = float(t.a)
+                m2 = zoo.make_levy(fam, prm)
+                m2.levy_triplet.set_representation(r3)
+                direct = float(m2.levy_triplet.a)
+                t.set_representation(r0)
+                back = float(t.a)
+            except Exception as e:
+                ctx.fail("oracle", "c10.src.search.walk", {"family": fam, "params": prm, "walk": [r.name for r in (r1, r2, r3)]}, {"raised": repr(e)})
+                found += 1
+                continue
+            inp = {"family": fam, "params": prm, "walk": [r.name for r in (r1, r2, r3)]}
+            ctx.count("c10.src.search", inp, nontrivial=False)
+            sc = max(1.0, abs(a0), abs(a12), abs(a123))
+            if abs(a123 - direct) > 1e-9 * sc or abs(back - a0) > 1e-9 * sc:
+                ctx.fail("oracle", "c10.src.search.walk", inp, {"after_walk": a123, "direct": direct, "back": back, "start": a0})
+                found += 1
+            if found > 20:
+                return
+
+
+def _search_C18(ctx, lits):
+    from rpylib.model.levymodel.mixed.blackscholes import BlackScholesModel, BlackScholesParameters
+    from rpylib.numerical.closedform.cfblackscholes import CFBlackScholes
+    import math
+    vals = sorted({float(x) for l in lits for x in (l, l * 2, l / 2, l + 1) if 0 < abs(l) < 1e9} | {0.5, 1.0, 50.0, 100.0, 150.0, 1e-9, 0.2})
+    found = 0
+    for spot in (100.0, 1e-9):
+        for sigma in (0.2, 1e-9, 0.6):
+            for r, d in ((0.02, 0.0), (0.05, 0.03), (0.0, 0.04)):
+                try:
+                    pr = CFBlackScholes(BlackScholesModel(spot=spot, r=r, d=d, parameters=BlackScholesParameters(sigma=sigma)))
+                except Exception:
+                    continue
+                for T in (1.0, 0.25, 1e-9, 3.0):
+                    for K in [v for v in vals if v > 0][:40]:
+                        inp = {"spot": spot, "sigma": sigma, "r": r, "d": d, "T": T, "K": K}
+                        ctx.count("c18.src.search", inp, nontrivial=False)
+                        try:
+                            c, p, f = float(pr.call(K, T)), float(pr.put(K, T)), float(pr.forward(K, T))
+                        except Exception:
+                            continue
+                        if abs((c - p) - f) > 1e-9 * max(1.0, spot, K):
+                            ctx.fail("oracle", "c18.src.search.parity", inp, {"call": c, "put": p, "forward": f})
+                            found += 1
+                            if found > 20:
+                                return
